@@ -52,6 +52,25 @@ type Ctx struct {
 	trace *bufio.Writer
 	rep   *Report
 	mr    *miniredis.Miniredis
+	// pendingPath: side file naming the call in progress; a fatal runtime error of the
+	// implementation (out of memory, stack exhaustion, deadlock - not recoverable) kills the
+	// process before a report can be written, and bin/check then finds the input here
+	pendingPath string
+}
+
+// pending records the call about to be made (props: the properties it would violate by killing
+// the process); done() clears it.
+func (c *Ctx) pending(props []string, key, what string, replay interface{}) {
+	if c.pendingPath == "" {
+		return
+	}
+	writeJSON(c.pendingPath, Failure{props, "oracle", key, what, replay})
+}
+
+func (c *Ctx) done() {
+	if c.pendingPath != "" {
+		os.Remove(c.pendingPath)
+	}
 }
 
 func (c *Ctx) thorough() bool { return c.tier == "thorough" }
